@@ -190,6 +190,17 @@ func (r *runner) offence(st *Step) {
 			clientClosed = true
 			r.quiesce()
 		}
+	case "boundary":
+		// silent for exactly the idle timeout, then a message that reaches the server at the
+		// very instant its idle timer fires: the connection may be ended as idle or served,
+		// but not left hanging
+		sim.Stats["probe.message_at_idle_deadline"]++
+		c.Send(&hagallpb.Request{Type: hagallpb.MsgType_MSG_TYPE_PING_REQUEST, Timestamp: now(), RequestId: c.NextReqID()})
+		sim.RunFor(idle)
+		for i := 0; i < 1+o.N && !c.Ended(); i++ {
+			c.Send(&hagallpb.Request{Type: hagallpb.MsgType_MSG_TYPE_PING_REQUEST, Timestamp: now(), RequestId: c.NextReqID()})
+		}
+		r.quiesce()
 	case "keepalive":
 		// a ping request every timeout/2 for three timeouts: must not be disconnected
 		for i := 0; i < 6 && !c.Ended(); i++ {
